@@ -28,13 +28,18 @@ import (
 
 // StoreParams describes one store-history scenario (C06-C09).
 type StoreParams struct {
-	Graph    GraphSpec `json:"graph"`
-	Kind     string    `json:"kind"` // memory | oci | file
-	Ops      []SOp     `json:"ops"`
-	Tasks    int       `json:"tasks"` // 1 = sequential
-	AutoGC   bool      `json:"auto_gc,omitempty"`
-	AutoSave bool      `json:"auto_save,omitempty"`
-	Stray    int       `json:"stray,omitempty"` // unreferenced but valid blob files planted in blobs/
+	Graph GraphSpec `json:"graph"`
+	Kind  string    `json:"kind"` // memory | oci | file
+	Ops   []SOp     `json:"ops"`
+	Tasks int       `json:"tasks"` // 1 = sequential
+	// Epilogue: operations issued one after the other once the concurrent tasks have all
+	// returned (deletes whose cascade depends on the bookkeeping the concurrent part left)
+	Epilogue []SOp `json:"epilogue,omitempty"`
+	// Prologue: operations issued one after the other before the concurrent tasks start
+	Prologue []SOp `json:"prologue,omitempty"`
+	AutoGC   bool  `json:"auto_gc,omitempty"`
+	AutoSave bool  `json:"auto_save,omitempty"`
+	Stray    int   `json:"stray,omitempty"` // unreferenced but valid blob files planted in blobs/
 	// file store options
 	ForceCAS     bool `json:"force_cas,omitempty"`
 	IgnoreNoName bool `json:"ignore_no_name,omitempty"`
@@ -84,7 +89,51 @@ func (p *storeProp) Assumptions() []string {
 
 var storeRefs = refUniverse
 
+// genTagRace: a tag that sits on one manifest is moved to two others at the same time, by
+// two tasks; afterwards the subject of those two is deleted with AutoGC. Whichever of the
+// two lost the tag is an untagged referrer then and has to go, the other one stays.
+func (p *storeProp) genTagRace(r *Rand) *StoreParams {
+	sp := &StoreParams{Kind: "oci", Tasks: 2, AutoGC: true, AutoSave: true}
+	sp.Graph = *GenGraph(r, GraphOpts{MaxNodes: 12, Referrers: true, OneDigest: true, NoTwins: true, Fanout: true})
+	g := sp.Graph.Build()
+	refs := map[int][]int{}
+	for _, n := range g.Nodes {
+		if n.IsManif && n.Spec.Subject >= 0 && g.Nodes[n.Spec.Subject].IsManif {
+			refs[n.Spec.Subject] = append(refs[n.Spec.Subject], n.ID)
+		}
+	}
+	for s := 0; s < len(g.Nodes); s++ {
+		rs := refs[s]
+		if len(rs) < 2 {
+			continue
+		}
+		b, c := rs[0], rs[1]
+		a := s
+		for _, n := range g.Nodes {
+			if n.IsManif && n.ID != b && n.ID != c && n.ID != s && r.Bool() {
+				a = n.ID
+			}
+		}
+		for i := range g.Nodes {
+			sp.Prologue = append(sp.Prologue, SOp{Op: "push", Node: i})
+		}
+		sp.Prologue = append(sp.Prologue, SOp{Op: "tag", Node: a, Ref: "v1"})
+		sp.Ops = []SOp{{Op: "tag", Node: b, Ref: "v1", Task: 0}, {Op: "tag", Node: c, Ref: "v1", Task: 1}}
+		if r.Bool() {
+			sp.Ops = append(sp.Ops, SOp{Op: "resolve", Ref: "v1", Task: r.Intn(2)})
+		}
+		sp.Epilogue = []SOp{{Op: "delete", Node: s}}
+		return sp
+	}
+	return nil
+}
+
 func (p *storeProp) Gen(r *Rand, tier string, idx int) any {
+	if p.id == "C09" && r.Chance(0.1) {
+		if sp := p.genTagRace(r); sp != nil {
+			return sp
+		}
+	}
 	sp := &StoreParams{}
 	switch p.id {
 	case "C06":
@@ -211,6 +260,11 @@ func (p *storeProp) Gen(r *Rand, tier string, idx int) any {
 			op = SOp{Op: "reopen", How: "new"}
 		}
 		addOp(op)
+	}
+	if sp.Kind == "oci" && sp.Tasks > 1 && sp.AutoGC {
+		for k := r.Range(0, 3); k > 0; k-- {
+			sp.Epilogue = append(sp.Epilogue, SOp{Op: "delete", Node: r.Intn(nn)})
+		}
 	}
 	if sp.Kind == "oci" && sp.Tasks == 1 && (p.id == "C07" || p.id == "C09") && r.Chance(0.3) {
 		sp.Ops = append(sp.Ops, SOp{Op: "gccancel"})
@@ -1130,6 +1184,16 @@ func (sr *storeRun) concurrent() *Verdict {
 	simos.Reset(simos.Config{Budget: diskBudget})
 	defer simos.Disable()
 	res := simrt.Run(sr.rc.NextConfig(), func() {
+		for _, op := range sp.Prologue {
+			histMu.Lock()
+			call := tick()
+			histMu.Unlock()
+			simos.SetBudget(diskBudget)
+			got := execOp(ctx, sr.store, g, op)
+			histMu.Lock()
+			hist = append(hist, histOp{Op: op, Res: got, Call: call, Ret: tick(), ClientID: sp.Tasks + 2})
+			histMu.Unlock()
+		}
 		done := make(chan struct{}, sp.Tasks)
 		for t := 0; t < sp.Tasks; t++ {
 			t := t
@@ -1187,6 +1251,17 @@ func (sr *storeRun) concurrent() *Verdict {
 		for t := 0; t < sp.Tasks; t++ {
 			<-done
 			simrt.Yield("join")
+		}
+		for _, op := range sp.Epilogue {
+			histMu.Lock()
+			call := tick()
+			histMu.Unlock()
+			simos.SetBudget(diskBudget)
+			got := execOp(ctx, sr.store, g, op)
+			histMu.Lock()
+			hist = append(hist, histOp{Op: op, Res: got, Call: call, Ret: tick(), ClientID: sp.Tasks + 1})
+			histMu.Unlock()
+			sr.info.Probes["epilogue_op_after_concurrent_part"]++
 		}
 		if sp.Kind == "oci" && (sr.p.id == "C07" || sr.p.id == "C08") {
 			// quiescent now: what the concurrent history left on disk must reopen to the live store's answers
